@@ -279,6 +279,49 @@ class Cov(Harness):
         return out
 
 
+class CovF64(Harness):
+    """IEEE binary64 semantics of the covariance arithmetic: whatever the samples, rounding must not produce a negative
+    variance or an asymmetric matrix (both are impossible for sums of products of deviations, in any summation order)"""
+
+    functions = (cov_from_samples,)
+    modules = CORR_MODULES
+    xval = False
+    fp = True
+
+    def __init__(self, N, B, wrong=None):
+        self.N, self.B, self.wrong = N, B, wrong
+        self.name = "covariance.float64.N%dB%d" % (N, B) + (".twin-" + wrong if wrong else "")
+        self.bounds = "samples=%d bins=%d; every float64 sample value with |x| <= 2^100 (all bit patterns)" % (N, B)
+        self.assumptions = ("np.cov = mean of products of deviations from the mean (numpy's documented algorithm); the sign and "
+                            "symmetry conclusions do not depend on the summation order inside the matrix product",)
+        self.must_fail = wrong is not None
+
+    def make_inputs(self, eng):
+        from vf import fpx
+
+        x = fpx.fparr("x", (self.N, self.B))
+        for v in x.ravel():
+            eng.assume(abs(v) <= 2.0**100)
+        return {"x": x}
+
+    def concrete_inputs(self, m, inp):
+        from vf.symx import concretise
+
+        return concretise(m, inp)
+
+    def body(self, inp):
+        x = inp["x"]
+        B = self.B
+        with np.errstate(all="ignore"):
+            cov = np.atleast_2d(cov_from_samples(x.copy()))
+        zero = 0.0 if self.wrong != "positive" else 2.0**-1000
+        out = [Check("variance_%d_not_negative" % a, cond=(cov[a, a] >= zero)) for a in range(B)]
+        for a in range(B):
+            for b in range(a + 1, B):
+                out.append(Check("symmetric_%d_%d" % (a, b), cond=(cov[a, b] == cov[b, a])))
+        return out
+
+
 class CovNaN(Harness):
     """a non-finite jackknife sample (outside the real-number model): concrete sentinel at an engine-chosen position"""
 
@@ -412,7 +455,10 @@ def harnesses(tier):
     hs.append(Cov(3, 2))
     hs.append(CovNaN())
     hs.append(Cov(3, 2, wrong="factor"))
+    hs.append(CovF64(2, 2))
+    hs.append(CovF64(2, 1, wrong="positive"))
     if tier == "thorough":
+        hs.append(CovF64(3, 2))
         hs.append(Cov(4, 2))
         hs.append(Cov(5, 3))
         hs.append(Cov(2, 3))
